@@ -146,6 +146,16 @@ func Run(h History, opt Options) *Outcome {
 		if step.Err != nil {
 			return o.fail(opt.Prefix+"/"+msg.K+"/grammar", "%s: %v", where, step.Err)
 		}
+		if msg.MayClose && step.State == memnet.Closed && step.Err == nil {
+			// rejected as fatal: nothing but (at most) one ErrorResponse, and the session is over
+			ok := len(step.Msgs) <= 1
+			for _, m := range step.Msgs {
+				ok = ok && m.Type == 'E'
+			}
+			if ok {
+				return o
+			}
+		}
 		if d := model.Match(exp, step.Msgs); d != "" {
 			return o.fail(opt.Prefix+"/"+msg.K+"/reply", "%s: %s", where, d)
 		}
